@@ -386,11 +386,104 @@ def check_flags(ctx, cfg, prog):
                    'Encoding<%s>::%s uses flag constants %s, expected %s' % (tag, fn, sorted(used), sorted(need)), cfg=cfg)
 
 
+def _sign_predicate(prog, f, flag_user):
+    """descriptor of the expression that decides the sign ('greater') of y: (resolved comparison callee, role of each argument, operator,
+    constant); roles: 'Y' = the point's y coordinate, 'NEG(Y)' = a local written by negate(Y).  flag_user(node) tells whether a statement
+    consumes the decision (sets the wire flag / selects the root)."""
+    negs = {}
+    for x in walk(f['body']):
+        if x.get('k') == 'call' and x.get('name') == 'negate' and x.get('this') is not None and x.get('args'):
+            t = strip(x['this'])
+            while t.get('k') == 'cast':
+                t = strip(t['e'])
+            if t.get('k') == 'ref' and t.get('rk') == 'local':
+                negs[t['id']] = pr.norm_obj(pr.canon(x['args'][0]))
+
+    def role(a):
+        a = strip(a)
+        while a.get('k') == 'cast':
+            a = strip(a['e'])
+        c = pr.norm_obj(pr.canon(a))
+        if c.endswith('.y') or c in ('this.y', 'this->y'):
+            return 'Y'
+        if a.get('k') == 'ref' and a.get('rk') == 'local' and a.get('id') in negs:
+            src = negs[a['id']]
+            return 'NEG(Y)' if (src.endswith('.y') or src in ('this.y', 'this->y')) else 'NEG(%s)' % src
+        return c
+
+    def describe(e):
+        e = strip(e)
+        if e.get('k') == 'bin' and e.get('op') in ('==', '!=', '<', '>', '<=', '>='):
+            for (a, b) in ((e['lhs'], e['rhs']), (e['rhs'], e['lhs'])):
+                a_, b_ = strip(a), strip(b)
+                if a_.get('k') == 'call' and 'cv' in b_:
+                    cal = prog.callee(a_, f)
+                    return (strip_tmpl((cal or {}).get('qn') or a_.get('name') or '?').split('<')[0], tuple(role(x) for x in a_.get('args', [])), e['op'], int(b_['cv']))
+        if e.get('k') == 'call':
+            cal = prog.callee(e, f)
+            return ('call', strip_tmpl((cal or {}).get('qn') or e.get('name') or '?'), tuple(role(x) for x in e.get('args', [])) + ((role(e['this']),) if e.get('this') is not None else ()))
+        if e.get('k') == 'ref' and e.get('rk') == 'local':
+            for x in walk(f['body']):
+                if x.get('k') == 'decl':
+                    for v in x['vars']:
+                        if v.get('id') == e.get('id') and v.get('init') is not None:
+                            return describe(v['init'])
+        return ('expr', loc_str(e))
+    return flag_user(describe)
+
+
+def check_sign_agreement(ctx, cfg, prog):
+    """the compressed encoder sets the 'greater' flag by the same predicate the decoder uses to select the root"""
+    encs = [f for f in prog.functions.values() if 'body' in f and strip_tmpl(f['qn']) == NS + 'Encoding::encode' and ', true>' in f['qn']]
+    decs = [f for f in prog.functions.values() if 'body' in f and strip_tmpl(f['qn']) == NS + 'Affine::get_point_from_x']
+    ctx.floor('compressed encoders[%s]' % cfg, len(encs), 2)
+    ctx.floor('get_point_from_x instantiations[%s]' % cfg, len(decs), 2)
+
+    def enc_pred(f):
+        def user(describe):
+            for x in walk(f['body']):
+                if x.get('k') == 'if':
+                    sets = [y for y in walk(x['then']) if y.get('k') == 'assign' and any(z.get('k') == 'ref' and 'encoding_flags_greater' in (z.get('g') or '') for z in walk(y['rhs']))]
+                    if sets:
+                        return describe(x['c'])
+            return None
+        return _sign_predicate(prog, f, user)
+
+    def dec_pred(f):
+        def user(describe):
+            # the comparison of the `greater` parameter with a boolean decides which root is kept
+            for x in walk(f['body']):
+                if x.get('k') == 'if':
+                    c = strip(x['c'])
+                    if c.get('k') == 'bin' and c.get('op') in ('!=', '=='):
+                        sides = [strip(c['lhs']), strip(c['rhs'])]
+                        names = [pr.norm_obj(pr.canon(s_)) for s_ in sides]
+                        if 'P:greater' in names:
+                            other = sides[1 - names.index('P:greater')]
+                            return describe(other)
+            return None
+        return _sign_predicate(prog, f, user)
+    for e in encs:
+        fld = 'Fq2' if ('G2Affine' in e['qn'] or 'Affine<' + NS + 'Fq2,' in e['qn']) else 'Fq'
+        d = [g for g in decs if ('Affine<' + NS + 'Fq2,' in g['qn']) == (fld == 'Fq2')]
+        pe = enc_pred(e)
+        pd = dec_pred(d[0]) if d else None
+        ok = pe is not None and pe == pd and pe[0] != 'expr'
+        ctx.ob('R-PAIR', ok, 'sign|%s' % fld, loc_str(e),
+               'the compressed %s encoder decides the sign flag with %s while the decoder (get_point_from_x) selects the root with %s: unless both are the '
+               'same predicate on (y, -y) an encoding can decode to the negated point' % (fld, pe, pd), cfg=cfg,
+               sample=dict(config=cfg, field=fld, predicate=str(pe)))
+
+
 def run(ctx):
     ctx.explanation = EXPL
     ctx.level = 'other'
     ctx.assumptions = ['encode/decode inverse-ness on values is not decided', 'is_on_curve / legendre / square_root arithmetic is not decided']
     for cfg, prog in ctx.programs().items():
+        from .. import lanes
+        nl = lanes.rule_bigendian_io(ctx, cfg, prog)
+        ctx.floor('R-LANES byte-order routines[%s]' % cfg, nl, 3)
+        check_sign_agreement(ctx, cfg, prog)
         decs = [f for f in prog.functions.values() if 'body' in f and strip_tmpl(f['qn']) == NS + 'Encoding::decode']
         ctx.floor('Encoding::decode instantiations[%s]' % cfg, len(decs), 4)
         n = 0
